@@ -67,7 +67,13 @@ func acquireRealZstdWriter(w io.Writer, level int) *zstd.Encoder {
 	p := realZstdWriterPoolMap[nLevel]
 	v := p.Get()
 	if v == nil {
-		zw, err := zstd.NewWriter(w, zstd.WithEncoderLevel(zstd.EncoderLevel(nLevel)))
+		// WithEncoderConcurrency(1) makes the encoder synchronous. A concurrent
+		// encoder writes finished blocks to w from its own goroutines after Write
+		// has returned, which races with the stackless writer collecting (and
+		// resetting) the output of each operation as soon as it returns.
+		zw, err := zstd.NewWriter(w,
+			zstd.WithEncoderLevel(zstd.EncoderLevel(nLevel)),
+			zstd.WithEncoderConcurrency(1))
 		if err != nil {
 			panic(err)
 		}
